@@ -5,6 +5,8 @@ import Pcore.Proofs.CtorNum
 import Pcore.Proofs.CtorNew
 import Pcore.Proofs.CtorCoerce
 import Pcore.Proofs.CtorHash
+import Pcore.Proofs.CtorBinary
+import Pcore.Proofs.CtorTimespan
 import Pcore.Model.CtorNew
 import Pcore.Generated.FnFacts
 /-!
@@ -52,7 +54,7 @@ Full statement / proved / missing
                          `Init[T]`), for every constructor function, hence never a value outside the type; `C16_new_outside`:
                          a constructor result outside the type becomes `reported TYPE_MISMATCH`.
 * `Alpha.C16_newm`, `Alpha.C16_ctor_no_fault` — for the constructors modelled end to end on the driver's alphabet
-                         (Integer, Float, Numeric, Boolean, Array/Tuple, Hash/Struct with the tree-array dispatch: dispatch
+                         (Integer, Float, Numeric, Boolean, Binary, Timespan, Array/Tuple, Hash/Struct with the tree-array dispatch: dispatch
                          table built by the same builder, body, assertion; also through
                          `Init[T]`): the value that comes out is in the receiver type, and no type assertion / index of a body
                          can fail because a body only runs with arguments its declaration accepts (compared value by value
@@ -73,6 +75,14 @@ Full statement / proved / missing
                          is not itself a hash.
 * `Alpha.C16_number_abs` — with `abs = true` the Numeric / Float constructor answers a non-negative integer (or the minimum
                          integer, whose negation wraps) or `|f|` of a float, which is never `< 0` (`F64.abs_not_neg`).
+* `Alpha.C16_timespan_new`, `Alpha.C16_timespan_fields` — the Timespan constructor (five dispatches: seconds as Integer / Float,
+                         a string in one of the eight default formats, positional fields, `{string}`, named fields; int64
+                         wrap-around; user-supplied formats are NOT modelled): the result is a Timespan within the bounds;
+                         `Timespan.new(n)` is `n·10^9` ns whenever that fits; named fields ≡ positional fields.
+* `Alpha.C16_binary_roundtrip`, `Alpha.C16_binary_named_forms` — the Binary constructor (four dispatches; `%b` / `%u` / `%B`
+                         base64 with Go's newline skipping and padding rules, `%s` / `%r`; the strict decoder is the codec of
+                         the serialization model, reused): `Binary.new(base64 text of bs)` = `Binary.new(bytes of bs)` = bs;
+                         and the two named forms that the code answers with an error for every input.
 * `Alpha.C16_hash_pairs`, `Alpha.C16_hash_tree` — `Hash[…].new([[k1,v1],…,[kn,vn]])` is the hash with exactly these entries in
                          this order, asserted against the receiver, whichever dispatch takes the array; the tree walk
                          (`tree` / `hash_tree`, Model/CtorHashTree.lean) answers a hash; its type assertions cannot fail
@@ -356,7 +366,7 @@ theorem newInstance_no_fault {T V : Type} (inst : T → V → Bool) (recv : Recv
 theorem ctorOf_no_fault (t : Ty) (c : Ctor) (h : ctorOf pf t = .some c) : ∀ a, ctorCall c a ≠ .fault := by
   cases t <;> simp [ctorOf] at h <;> subst h <;>
     first | exact integer_no_fault | exact boolean_no_fault | exact array_no_fault | exact hash_no_fault
-          | exact float_no_fault pf | exact numeric_no_fault pf
+          | exact float_no_fault pf | exact numeric_no_fault pf | exact binary_no_fault | exact timespan_no_fault
 
 /-- no type assertion or index in the bodies of the modelled constructors can fail: a body runs only with arguments its
     declaration accepts -/
@@ -487,6 +497,55 @@ theorem C16_hash_tree (entries : List Val) (option r : Val) (h : treeBody entrie
   cases option <;> simp at h
   exact treeLoop_hash _ entries [] r h
 
+/-! ### Binary -/
+
+/-- `Binary.new` of the (strict, padded) base64 text of a byte string — with the default format and with `%B` — and of the
+    byte string as an array of integers is that byte string -/
+theorem C16_binary_roundtrip (bs : List UInt8) :
+    newModel pf (.plain .binary) [.str (Pcore.Ser.b64 bs)] = some (.value (.binary bs)) ∧
+    newModel pf (.plain .binary) [.str (Pcore.Ser.b64 bs), .str "%B"] = some (.value (.binary bs)) ∧
+    newModel pf (.plain .binary) [.arr (bs.map fun b => .int b.toNat)] = some (.value (.binary bs)) := by
+  obtain ⟨h1, h2⟩ := binaryCtor_b64 bs
+  refine ⟨?_, ?_, ?_⟩ <;>
+    simp [newModel, recvOf, ctorOf, newInstance, h1, h2, binaryCtor_bytes, assertInstance, inst]
+
+/-- the named forms as the code has them (both reported errors, so the property holds; recorded as observations):
+    `Binary.new({value => s})` without a format is ILLEGAL_ARGUMENT for EVERY string (the format handed on is
+    `undef.String()`), and `Binary.new({value => [b1,…]})` is an error for EVERY array (the hash itself is read as the byte
+    list) -/
+theorem C16_binary_named_forms (s : String) (vs : List Val) :
+    newModel pf (.plain .binary) [.hash [(.str "value", .str s)]] = some (.reported "ILLEGAL_ARGUMENT") ∧
+    (newModel pf (.plain .binary) [.hash [(.str "value", .arr vs)]] = some (.reported "ILLEGAL_ARGUMENT") ∨
+     newModel pf (.plain .binary) [.hash [(.str "value", .arr vs)]] = some (.reported "ILLEGAL_ARGUMENTS")) := by
+  constructor
+  · simp [newModel, recvOf, ctorOf, newInstance, binaryCtor_named_no_format]
+  · rcases binaryCtor_named_array vs with h | h
+    · left; simp [newModel, recvOf, ctorOf, newInstance, h]
+    · right; simp [newModel, recvOf, ctorOf, newInstance, h]
+
+/-! ### Timespan -/
+
+/-- what `Timespan[lo,hi].new(…)` returns is a Timespan within the bounds -/
+theorem C16_timespan_new (lo hi : Int) (args : List Val) (v : Val)
+    (h : newModel pf (.plain (.timespan lo hi)) args = some (.value v)) : ∃ n, v = .timespan n ∧ lo ≤ n ∧ n ≤ hi := by
+  obtain ⟨t, ht, hi'⟩ := C16_newm pf _ args v h
+  simp [RecvTy.type?] at ht; subst ht
+  cases v <;> simp [inst] at hi'
+  exact ⟨_, rfl, hi'.1, hi'.2⟩
+
+/-- `Timespan.new(n)` is `n` seconds (int64 arithmetic: exact whenever `n·10^9` fits); the seven positional fields and the
+    hash of named fields are the same polynomial `fromFields`, so
+    `Timespan.new({days => d, …, nanoseconds => ns, negative => false}) = Timespan.new(d, h, m, s, ms, us, ns)` -/
+theorem C16_timespan_fields (neg : Bool) (n d h m s ms us ns : Int) :
+    ctorCall timespanCtor [.int n] = .value (.timespan (F64.wrap64 (n * 1000000000))) ∧
+    (F64.minInt ≤ n * 1000000000 → n * 1000000000 ≤ F64.maxInt → ctorCall timespanCtor [.int n] = .value (.timespan (n * 1000000000))) ∧
+    ctorCall timespanCtor [.int d, .int h, .int m, .int s, .int ms, .int us, .int ns] =
+      .value (.timespan (fromFields false d h m s ms us ns)) ∧
+    ctorCall timespanCtor [fieldsHash neg d h m s ms us ns] = .value (.timespan (fromFields neg d h m s ms us ns)) := by
+  refine ⟨timespanCtor_seconds n, ?_, (timespanCtor_fields neg d h m s ms us ns).1, (timespanCtor_fields neg d h m s ms us ns).2⟩
+  intro h1 h2
+  rw [timespanCtor_seconds, wrap64_id _ h1 h2]
+
 /-! ### wrapper types, `Init[T, args…]`, `CoerceTo` -/
 
 /-- a type that wraps another: `Optional[T]`, `NotUndef[T]`, `Variant[…]`, an alias -/
@@ -583,6 +642,33 @@ example : newModel pfx (.plain (.arr (.int none none) 1 none)) [.arr [.int 1], .
 example : newModel pfx (.plain (.arr .any 1 none)) [.arr [.int 1], .bool true] = some (.value (.arr [.arr [.int 1]])) := by rfl
 example : newModel pfx (.plain .bool) [.int 0] = some (.value (.bool false)) := by rfl
 example : newModel pfx (.plain (.opt (.int none none))) [.int 0] = some (.reported "INSTANCE_DOES_NOT_RESPOND") := by rfl
+
+-- Timespan: seconds (integer, float), the default formats, fields, wrap-around; a Timespan as `from` of the numeric constructors
+def anySpan : Ty := .timespan F64.minInt F64.maxInt
+example : outText (newModel pfx (.plain anySpan) [.float 0x3FF8000000000000]) = "value (ts 1500000000)" := by decide +kernel
+example : outText (newModel pfx (.plain anySpan) [.str "1-02:03:04.5"]) = "value (ts 93784500000000)" := by decide +kernel
+example : outText (newModel pfx (.plain anySpan) [.str "-03:04.05"]) = "value (ts -184050000000)" := by decide +kernel
+example : outText (newModel pfx (.plain anySpan) [.str "1-2"]) = "reported TIMESPAN_CANNOT_BE_PARSED" := by decide +kernel
+example : outText (newModel pfx (.plain anySpan) [.int 9223372037]) = "value (ts -9223372036709551616)" := by decide +kernel
+example : outText (newModel pfx (.plain (.timespan 0 10000000000)) [.int 11]) = "reported TYPE_MISMATCH" := by decide +kernel
+example : outText (newModel pfx (.plain anySpan) [.hash [(.str "seconds", .int 3), (.str "negative", .bool true)]]) =
+    "value (ts -3000000000)" := by decide +kernel
+example : outText (newModel pfx (.plain (.int none none)) [.timespan 2500000000]) = "value (i 2)" := by decide +kernel
+example : outText (newModel pfx (.plain (.float (-F64.maxFiniteKey) F64.maxFiniteKey)) [.timespan 2500000000]) =
+    "value (f 4612811918334230528)" := by decide +kernel
+example : F64.minInt ≤ (5 : Int) * 1000000000 ∧ (5 : Int) * 1000000000 ≤ F64.maxInt := by decide
+
+-- Binary: the three base64 variants, the raw forms, the named form with a format
+example : outText (newModel pfx (.plain .binary) [.str "YWJj"]) = "value (bin [97, 98, 99])" := by decide +kernel
+example : outText (newModel pfx (.plain .binary) [.str "YR=="]) = "reported ILLEGAL_ARGUMENT" := by decide +kernel
+example : outText (newModel pfx (.plain .binary) [.str "YR==", .str "%b"]) = "value (bin [97])" := by decide +kernel
+example : outText (newModel pfx (.plain .binary) [.str "YW\nJj"]) = "value (bin [97, 98, 99])" := by decide +kernel
+example : outText (newModel pfx (.plain .binary) [.str "-_-_", .str "%u"]) = "value (bin [251, 255, 191])" := by decide +kernel
+example : outText (newModel pfx (.plain .binary) [.str "-_-_", .str "%b"]) = "reported ILLEGAL_ARGUMENT" := by decide +kernel
+example : outText (newModel pfx (.plain .binary) [.str "é", .str "%s"]) = "value (bin [195, 169])" := by decide +kernel
+example : outText (newModel pfx (.plain .binary) [.hash [(.str "value", .str "YWJj"), (.str "format", .str "%B")]]) =
+    "value (bin [97, 98, 99])" := by decide +kernel
+example : outText (newModel pfx (.plain .binary) [.arr [.int 256]]) = "reported ILLEGAL_ARGUMENTS" := by decide +kernel
 
 -- Hash from pairs / tree arrays (C16_hash_pairs, C16_hash_tree)
 example : ctorOf pfx (.hash .any .any 0 none) = .some hashCtor ∧ ctorOf pfx structA = .some hashCtor := ⟨rfl, rfl⟩
